@@ -435,7 +435,9 @@ func reportViolation(prop, dir string, l *logical, why string, eng *Engine, seed
 		}
 		rec["solver_output"] = out
 		rec["smt2"] = l.Fail.smtText(true)
-		if r.Status == "sat" {
+		if r.Status != "unsat" {
+			// templates drive the real code with an input of the failing class; they do not need the model,
+			// so a refutation the solver could not complete (unknown/timeout) is replayed as well
 			confirmed, replayInfo := tryReplay(eng, prop, l, seed)
 			rec["replay"] = replayInfo
 			if confirmed {
